@@ -42,7 +42,7 @@ namespace c17
 
   struct SchedOpts { int max_cells = 16; bool threaded_bias = false; int wd_ms = 5000; };
 
-  struct JobSpec { bool S = true, C = true; Sched sched; };
+  struct JobSpec { bool S = true, C = true, master = false; Sched sched; };   // master: run through assemble_master()
 
   template<typename DA_, bool S_, bool C_>
   void run_syn_job(Ctx& c, int wd_ms, DA_& da, const MeshSpec& ms, const Subset& sub, const Adj& adj, const JobSpec& js, std::size_t nw, int jidx, J& stats)
@@ -54,10 +54,10 @@ namespace c17
       SynJob<S_, C_> inner(ms, js.sched.mode == 0 ? 0 : std::min(js.sched.base_us, 50));
       Shared sh; sh.sched = js.sched;
       PJob<SynJob<S_, C_>> job(inner, sh);
-      { Watchdog wd(c, wd_ms); da.assemble(job); }
+      { Watchdog wd(c, wd_ms); if(js.master) da.assemble_master(job); else da.assemble(job); }
       try
       {
-        LogStats st = check_logs(sh, sub, adj, ms.nc(), S_, C_, nw, tag.c_str());
+        LogStats st = check_logs(sh, sub, adj, ms.nc(), S_, C_, js.master ? 0 : nw, tag.c_str());
         // checksums
         std::vector<long> exp(ms.nv(), 0); long tot = 0;
         for(Index cl : sub.cells) { tot += SynJob<S_, C_>::weight(cl); if(S_) for(int l = 0; l < ms.nvc; ++l) exp[ms.cells[cl * Index(ms.nvc) + Index(l)]] += SynJob<S_, C_>::weight(cl); }
@@ -87,7 +87,7 @@ namespace c17
     Cfg cfg = gen_cfg(t, Index(sub.cells.size()), o.threaded_bias); cfg.mesh_perm = mesh_perm;
     int njobs = 1 + t.pick({ 5, 3, 2 });
     std::vector<JobSpec> jobs;
-    for(int k = 0; k < njobs; ++k) { JobSpec js; int f = t.pick({ 5, 2, 2, 1 }); js.S = (f == 0 || f == 1); js.C = (f == 0 || f == 2); js.sched = gen_sched(t, ms.nc()); jobs.push_back(js); }
+    for(int k = 0; k < njobs; ++k) { JobSpec js; int f = t.pick({ 5, 2, 2, 1 }); js.S = (f == 0 || f == 1); js.C = (f == 0 || f == 2); js.sched = gen_sched(t, ms.nc()); js.master = t.flag(1, 8); jobs.push_back(js); }
 
     // strategy the assembler will resolve to (same rule as the documentation of ThreadingStrategy::automatic)
     auto resolve = [&]() { ThreadingStrategy e = cfg.strat; if(e == ThreadingStrategy::automatic) e = cfg.maxw <= 1 ? ThreadingStrategy::single : (mesh_perm == 1 ? ThreadingStrategy::colored : ThreadingStrategy::layered); return e; };
@@ -110,7 +110,7 @@ namespace c17
     if(sub.cells.size() <= 24) sj.set("cells", sub.cells);
     c.desc.set("subset", sj);
     c.desc.set("strategy", strat_name(cfg.strat)); c.desc.set("max_workers", (long long)cfg.maxw);
-    J jj = J::arr(); for(auto& js : jobs) { J x = J::obj(); x.set("scatter", js.S); x.set("combine", js.C); x.set("sched", js.sched.json()); jj.add(x); }
+    J jj = J::arr(); for(auto& js : jobs) { J x = J::obj(); x.set("scatter", js.S); x.set("combine", js.C); if(js.master) x.set("via", "assemble_master"); x.set("sched", js.sched.json()); jj.add(x); }
     c.desc.set("jobs", jj);
     c.op = std::string(strat_name(eff));
     c.nontrivial = !sub.cells.empty() && cfg.maxw >= 1;
@@ -141,7 +141,8 @@ namespace c17
     {
       // known finding c17-colored-noscatter: colored strategy, >= 2 workers, task without scatter: the workers run
       // _work_no_scatter and never open their fences while the master waits for them per colour => deadlock
-      if(da->get_threading_strategy() == ThreadingStrategy::colored && nw >= 2 && !js.S)
+      if(js.master) c.label("via:assemble_master");
+      if(da->get_threading_strategy() == ThreadingStrategy::colored && nw >= 2 && !js.S && !js.master)
       {
         c.label("kf:colored-noscatter");
         if(c.excl("c17-colored-noscatter")) { js.S = true; steered.add("colored-noscatter"); }
